@@ -112,3 +112,12 @@ claim("C18",
       "running simulate.py's in-run costing and calculate_costs.py on the written files with the same options (found and fixed: "
       "price column name mismatch).",
       TB + AX_R + ".", "Coq proof of split_feedin + exact correspondence + file-level comparison and cost round trip", "5.18")
+claim("C16",
+      "Theorems (any number type, axiom-free): shifting every timestamp of the event model by the same amount commutes with "
+      "event delivery and with the pre-step of every timestep, leaving loads, limits, prices, SoCs and counters untouched. "
+      "PARTIAL: determinism on one Scenario object, isolation from an unrelated connector, non-mutation of the definition and "
+      "week-shift invariance of whole runs are implementation-vs-implementation history tests (aliasing cannot be exhibited by "
+      "a functional model); labelled sampled.",
+      "Trusted: Coq kernel + VM; harness. No axioms. History tests run /repo in plain floats and compare with relative tolerance 1e-9; "
+      "event signal_time is excluded from the definition comparison (strategy constructors move it earlier, idempotently).",
+      "Coq proof of shift invariance on the event model + exact correspondence + sampled history tests", "5.16")
